@@ -16,7 +16,10 @@ NONTRIVIAL_RULE = ('non-trivial = the process contains a memoized call (True or 
                    'entered the rule fewer times than the unmemoized evolution would (R*C per step), i.e. at least one '
                    'cache entry was hit; distinct = distinct case dicts')
 EXHAUSTIVE = {'quick': False, 'thorough': False}
-NOTES = ['round 5: bigr/* (r = 16, 17: windows > 1000 cells), floatret/* (non-integral float results on integer automata; '
+NOTES = ['round 6: reentrant/* (rule or timesteps callable runs a nested memoized evolve2d with another rule), inplace/* (pure '
+         'rules writing into their argument; model = function of the original contents), retview/* (0-d view results), '
+         'callform/* (positional / keyword / mixed call of evolve2d)',
+         'round 5: bigr/* (r = 16, 17: windows > 1000 cells), floatret/* (non-integral float results on integer automata; '
          'pos = CProc with the family member, neg = CProcNeg in Corr/C04.v: the truncating cast), dress/<how>/* (every '
          'twins.RULE_DRESSINGS shape, outermost), layout/<fortran|transposed|negstride>/* (non-C-contiguous history)',
          'every shape R x C <= 6x6 (1xN, Nx1, 3x4 and 4x3, primes included), every radius 0..min(R,C) and both '
@@ -96,13 +99,87 @@ class HalfLin:
         return np.float64(v) if self.npf else float(v)
 
 
-def _build_rule(c):
-    """(the counting twin, the object handed to evolve2d): the dressing is the OUTERMOST wrapper"""
+class InPlace:
+    """pure rules that WRITE INTO THEIR ARGUMENT before / while computing; a rule owns the neighbourhood it is handed,
+    so this is legal, and the value is a function of the ORIGINAL contents (model: the Lin2 member with these weights).
+      blank_data / blank_ma : remember the centre, set n[mid, mid] = 0 (through .data / through the array itself), then
+                              the weighted sum over the (now blanked) block plus weight * remembered centre
+      sortsum               : sort the flattened block in place, then sum it (Moore only; all weights 1)
+      scribble0 / scribble77: twins.Scribble — compute first, then overwrite the whole block"""
+    def __init__(self, how, ws, m):
+        self.how, self.ws, self.m = how, ws, m
+
+    def __call__(self, nbhd_arg, cell_arg, step_arg):
+        n = nbhd_arg
+        masked = isinstance(n, np.ma.MaskedArray)
+        data = n.data if masked else n
+        if self.how == 'sortsum':
+            flat = data.reshape(-1)                 # a view of the block
+            flat.sort()
+            return int(sum(int(x) for x in flat)) % self.m
+        mid = data.shape[0] // 2
+        centre = int(data[mid][mid])
+        if self.how == 'blank_ma':
+            n[mid, mid] = 0
+        else:
+            data[mid, mid] = 0
+        vals = twins.unmasked2(n)
+        k = sum(1 for i in range(data.shape[0]) for j in range(data.shape[1])
+                if (i, j) < (mid, mid) and not (masked and np.ma.getmaskarray(n)[i][j]))     # rank of the centre
+        return (sum(w * x for w, x in zip(self.ws, vals)) + (self.ws[k] * centre if k < len(self.ws) else 0)) % self.m
+
+
+class ReentPred:
+    """a timesteps callable that runs a complete nested library call before answering (model: the predicate)"""
+    def __init__(self, p, nested):
+        self.p, self.nested = p, nested
+
+    def __call__(self, history_arg, count_arg):
+        self.nested()
+        return self.p(history_arg, count_arg)
+
+
+def _nested(c):
+    """the nested library call of the reentrant streams: a MEMOIZED evolve2d on the same grid / r / neighbourhood / dtype
+    with ANOTHER pure rule (same weights, another constant: its value differs on every neighbourhood)"""
+    import cellpylib as cpl
+    re = c['reent']
+    other = make_rule(re['rule'], dim=2)
+    nb = 'Moore' if c['ty'] == 'moore' else 'von Neumann'
+
+    def nested():
+        cpl.evolve2d(np.array(c['hist'][-1:], dtype=np.dtype(c['dtype'])), timesteps=2, apply_rule=other, r=c['r'],
+                     neighbourhood=nb, memoize=OPTIONS[re['memo']][0]())
+    return nested
+
+
+def _inner_rule(c):
+    """the twin whose calls are counted / logged: family member, HalfLin, InPlace, Scribble or ProjView2"""
     base = make_rule(c['rule'], dim=2)
     if c.get('fret'):
         base = HalfLin(base, c['fret']['frac'], c['fret']['neg'], c['fret']['np'])
-    counting = Counting(base, c.get('ret'))
-    return counting, twins.dress(counting, c.get('dress'))
+    how = c.get('inplace')
+    if how in ('scribble0', 'scribble77'):
+        base = twins.Scribble(base, fill=0 if how == 'scribble0' else 77)
+    elif how:
+        base = InPlace(how, list(c['rule']['ws']), c['rule']['m'])
+    if c.get('projview'):
+        base = twins.ProjView2(c['projview'][0], c['projview'][1])
+    return base
+
+
+def _wrap_outer(c, counted):
+    """what is handed to evolve2d: re-entrancy around the counted twin, the dressing OUTERMOST"""
+    f = counted
+    if c.get('reent') and c['reent']['where'] == 'rule':
+        f = twins.Reentrant(f, _nested(c))
+    return twins.dress(f, c.get('dress'))
+
+
+def _build_rule(c):
+    """(the counting twin, the object handed to evolve2d)"""
+    counting = Counting(_inner_rule(c), c.get('ret'))
+    return counting, _wrap_outer(c, counting)
 
 
 def _layout(ca, how):
@@ -390,6 +467,80 @@ def _generate_main(rng, tier):
             calls = [dict(_call(R, C, r, ty, hist, rule, m_, ts, rng.choice(['int64', 'int32', 'float64'])), layout=how)
                      for m_ in MODES3]
             yield {'kind': 'layout/%s/%s' % (how, ty), 'calls': calls}
+    # -- round 6 ---------------------------------------------------------------------------------------------------
+    # reentrant: the rule (or the timesteps callable) itself runs a complete MEMOIZED evolve2d with another rule on the
+    # same grid / r / neighbourhood / dtype: nothing cached by the nested call may reach the outer one
+    n_re = 8 if tier == 'quick' else 60
+    for i in range(n_re):
+        for where in ('rule', 'rule', 'pred'):
+            R, C = rng.choice([(2, 2), (2, 3), (3, 3), (3, 4), (4, 3)])
+            r = rng.randint(0, min(R, C, 1)) if where == 'rule' else rng.randint(0, min(R, C, 2))
+            ty = rng.choice(['moore', 'vn'])
+            k = rng.choice([2, 3])
+            w = (2 * r + 1) ** 2
+            ws = [rng.randint(0, 2) for _ in range(w)]
+            b1, b2 = rng.sample(range(k), 2)
+            rule = {'fam': 'aff', 'ws': ws, 'b': b1, 'm': k} if b1 else {'fam': 'lin', 'ws': ws, 'm': k}
+            other = {'fam': 'aff', 'ws': ws, 'b': b2, 'm': k} if b2 else {'fam': 'lin', 'ws': ws, 'm': k}
+            g = _grid(rng, R, C, rng.choice(STYLES), k)
+            ts = {'lt': rng.randint(2, 4)} if where == 'pred' else rng.choice([{'fixed': 2}, {'fixed': 3}, {'lt': 3}])
+            reent = {'where': where, 'memo': 'true' if i % 2 else 'rec_lit', 'rule': other}
+            calls = [dict(_call(R, C, r, ty, [g], rule, m_, ts), reent=reent) for m_ in MODES3]
+            yield {'kind': 'reentrant/%s/nested=%s/%s' % (where, reent['memo'], ty), 'calls': calls}
+    # inplace: pure rules that write into the neighbourhood they were handed (InPlace, twins.Scribble)
+    n_ip = 8 if tier == 'quick' else 50
+    for i in range(n_ip):
+        for how in ('blank_data', 'blank_ma', 'sortsum', 'scribble0', 'scribble77'):
+            for ty in ('moore', 'vn'):
+                if how == 'sortsum' and ty == 'vn':
+                    continue
+                R, C = rng.choice([(3, 3), (3, 4), (4, 4), (5, 4), (6, 6), (5, 5), (4, 6)])
+                r = rng.randint(1 if how.startswith('blank') else 0, min(R, C, 2))
+                k = rng.choice([2, 2, 3])
+                if how.startswith('blank') and i % 4:
+                    r, k = 1, 2              # small windows over two states: blanked contents recur as real contents
+                wd = 2 * r + 1
+                unm = [(a, b) for a in range(wd) for b in range(wd) if ty == 'moore' or abs(a - r) + abs(b - r) <= r]
+                ws = [1] * len(unm) if how == 'sortsum' else [rng.randint(0, 2) for _ in unm]
+                if how.startswith('blank'):
+                    ws[unm.index((r, r))] = rng.randint(1, k - 1)       # the (blanked) centre always counts
+                rule = {'fam': 'lin', 'ws': ws, 'm': k}
+                if how == 'scribble0' and rng.random() < 0.7:
+                    rule = {'fam': 'aff', 'ws': ws, 'b': rng.randint(1, k - 1), 'm': k}
+                g = _grid(rng, R, C, rng.choice(['random', 'random', 'sparse', 'checker', 'rowstripes']), k)
+                ts = rng.choice([{'fixed': 4}, {'fixed': 5}, {'fixed': 6}, {'lt': 5}])
+                calls = [dict(_call(R, C, r, ty, [g], rule, m_, ts, rng.choice(['int64', 'int32'])), inplace=how)
+                         for m_ in MODES3]
+                yield {'kind': 'inplace/%s/%s' % (how, ty), 'calls': calls}
+    # retview: the rule returns an entry of its block as a zero-dimensional VIEW of the argument (twins.ProjView2);
+    # model = one-hot Lin with a modulus above every state
+    n_rv = 12 if tier == 'quick' else 80
+    for i in range(n_rv):
+        R, C = rng.choice([(2, 3), (3, 3), (3, 4), (4, 4), (5, 3)])
+        r = rng.randint(0, min(R, C, 2))
+        ty = 'vn' if i % 2 else 'moore'
+        wd = 2 * r + 1
+        unm = [(a, b) for a in range(wd) for b in range(wd) if ty == 'moore' or abs(a - r) + abs(b - r) <= r]
+        pi, pj = rng.choice(unm)
+        ws = [1 if ab == (pi, pj) else 0 for ab in unm]
+        rule = {'fam': 'lin', 'ws': ws, 'm': 1000}
+        g = [[rng.randint(0, 9) for _ in range(C)] for _ in range(R)]
+        ts = rng.choice([{'fixed': 2}, {'fixed': 3}, {'fixed': 4}, {'lt': 3}])
+        calls = [dict(_call(R, C, r, ty, [g], rule, m_, ts, rng.choice(['int64', 'int32', 'uint8'])), projview=[pi, pj])
+                 for m_ in MODES3]
+        yield {'kind': 'retview/%s' % ty, 'calls': calls}
+    # callform: evolve2d called with its arguments positionally, by keyword, mixed (twins.invoke)
+    for npos in range(0, 7):
+        for j in range(2 if tier == 'quick' else 10):
+            R, C = rng.choice([(2, 3), (3, 3), (3, 4), (4, 2)])
+            r = rng.randint(0, min(R, C, 2))
+            ty = rng.choice(['moore', 'vn'])
+            k = rng.choice([2, 3])
+            ts = rng.choice([{'fixed': 3}, {'lt': 3}])
+            rule = _lin(rng, r, k)
+            g = _grid(rng, R, C, rng.choice(STYLES), k)
+            calls = [dict(_call(R, C, r, ty, [g], rule, m_, ts), npos=npos) for m_ in MODES3]
+            yield {'kind': 'callform/npos=%d' % npos, 'calls': calls}
     # -- random larger shapes (not only powers of two), small radii
     n_rand = 60 if tier == 'quick' else 1200
     for _ in range(n_rand):
@@ -429,10 +580,12 @@ def generate(rng, tier):
     yield from big
 
 
-def _timesteps(ts, pdress=None):
+def _timesteps(ts, pdress=None, nested=None):
     import cellpylib as cpl
     if 'fixed' in ts:
         return ts['fixed']
+    if nested is not None:
+        return twins.dress_pred(ReentPred(PredLt(ts['lt']), nested), pdress)
     if 'lt' in ts:
         return twins.dress_pred(PredLt(ts['lt']), pdress)
     if 'script' in ts:
@@ -454,8 +607,10 @@ def _run_one(cpl, c, memo_value, rule=None):
         rule, handed = _build_rule(c)
     n0 = rule.n
     nb = 'Moore' if c['ty'] == 'moore' else 'von Neumann'
-    res = call_impl(lambda: cpl.evolve2d(ca, timesteps=_timesteps(c['ts'], c.get('pdress')), apply_rule=handed, r=c['r'],
-                                         neighbourhood=nb, memoize=memo_value))
+    nested = _nested(c) if c.get('reent') and c['reent']['where'] == 'pred' else None
+    names = ['cellular_automaton', 'timesteps', 'apply_rule', 'r', 'neighbourhood', 'memoize']
+    values = [ca, _timesteps(c['ts'], c.get('pdress'), nested), handed, c['r'], nb, memo_value]
+    res = call_impl(lambda: twins.invoke(cpl.evolve2d, names, values, c.get('npos', 0)))
     if res[0] != 'ok':
         return list(res), rule.n - n0
     return ['ok', _grids(res[1])], rule.n - n0
